@@ -210,6 +210,22 @@ pub fn rpc_capabilities() -> [(u64, u32); 3] {
     ]
 }
 
+/// `(name, capability id, INFLIGHT)` of every RPC of the gossip and consensus endpoints.
+pub fn all_rpc_capabilities() -> Vec<(&'static str, u64, u32)> {
+    use rpc::Rpc as _;
+    fn e<R: rpc::Rpc>() -> (&'static str, u64, u32) {
+        (R::METHOD, R::CAPABILITY.id(), R::INFLIGHT)
+    }
+    vec![
+        e::<rpc::consensus::Rpc>(),
+        e::<rpc::push_validator_addrs::Rpc>(),
+        e::<rpc::ping::Rpc>(),
+        e::<rpc::push_block_store_state::Rpc>(),
+        e::<rpc::get_block::Rpc>(),
+        e::<rpc::push_tx::Rpc>(),
+    ]
+}
+
 /// `rpc::Service::run` over `transport` with a consensus, a push_validator_addrs and a ping server
 /// (request size limits `max_req_size`, no rate limit). Returns the class of the `RunError`.
 pub async fn rpc_service_run<S: io::AsyncRead + io::AsyncWrite + Send>(
